@@ -15,4 +15,4 @@ check('C21', title='Two fix8 sessions deliver every application message across f
       rule='history over {sendI, sendA, deliverI>A, deliverA>I, drop, reconnect, restartI, restartA}; distinct = new canonical state (both sessions\' state and numbers, both stores incl. control record, both queues, sent counts, delivery logs)',
       assumptions=['sim runtime: virtual clock, threads created by fix8 are registered but never run; inbound bytes enter through Session::process as the reader thread would hand them over',
                    'FIX42UTEST schema; application messages are NewOrderSingle with unique ClOrdIDs, deliveries observed at the generated router'],
-      parts=[dict(name='bfs', harness='session_pair', variant='san', quick=dict(args=['depth=6'], deadline=100), thorough=dict(args=['depth=8'], deadline=850))])
+      parts=[dict(name='bfs', harness='session_pair', variant='san', quick=dict(args=['depth=6'], deadline=100), thorough=dict(args=['depth=10'], deadline=1500))])
